@@ -320,4 +320,97 @@ theorem members_render (sd : Bytes → Option UInt64) (fmt17 : UInt64 → Bytes)
         simp [skipWs_good 0x22 _ (by decide), ie, mapFKvs]
 end
 
+/-! ## enough fuel -/
+
+mutual
+theorem size_pos : ∀ v : JVal, 1 ≤ v.size
+  | .null => by simp [JVal.size]
+  | .bool _ => by simp [JVal.size]
+  | .int _ => by simp [JVal.size]
+  | .float _ => by simp [JVal.size]
+  | .str _ => by simp [JVal.size]
+  | .list _ => by simp [JVal.size]
+  | .dict _ => by simp [JVal.size]
+end
+
+mutual
+theorem need_le_size : ∀ v : JVal, need v ≤ 2 * v.size
+  | .null => by simp [need, JVal.size]
+  | .bool _ => by simp [need, JVal.size]
+  | .int _ => by simp [need, JVal.size]
+  | .float _ => by simp [need, JVal.size]
+  | .str _ => by simp [need, JVal.size]
+  | .list l => by have := needList_le_size l; simp only [need, JVal.size]; omega
+  | .dict kvs => by have := needKvs_le_size kvs; simp only [need, JVal.size]; omega
+theorem needList_le_size : ∀ l : List JVal, needList l ≤ 2 * sizeList l + 1
+  | [] => by simp [needList]
+  | v :: vs => by
+    have h1 := need_le_size v
+    have h2 := needList_le_size vs
+    have h3 := size_pos v
+    simp only [needList, sizeList]; omega
+theorem needKvs_le_size : ∀ l : List (Bytes × JVal), needKvs l ≤ 2 * sizeKvs l + 1
+  | [] => by simp [needKvs]
+  | (_, v) :: vs => by
+    have h1 := need_le_size v
+    have h2 := needKvs_le_size vs
+    have h3 := size_pos v
+    simp only [needKvs, sizeKvs]; omega
+end
+
+mutual
+theorem size_le_render (sd : Bytes → Option UInt64) (fmt17 : UInt64 → Bytes) (g : UInt64 → UInt64)
+    (H : FloatHyp sd fmt17 g) : ∀ v : JVal, v.wf = true → v.size ≤ (render fmt17 v).length
+  | .null, _ => by simp [JVal.size, render]
+  | .bool b, _ => by cases b <;> simp [JVal.size, render]
+  | .int i, hv => by
+    obtain ⟨c, r, e, _⟩ := render_head sd fmt17 g H (.int i) hv
+    rw [e]; simp [JVal.size]
+  | .float x, hv => by
+    obtain ⟨c, r, e, _⟩ := render_head sd fmt17 g H (.float x) hv
+    rw [e]; simp [JVal.size]
+  | .str s, _ => by simp [JVal.size, render, renderString]
+  | .list l, hv => by
+    have hl : wfList l = true := by simpa [JVal.wf] using hv
+    have := sizeList_le_render sd fmt17 g H l hl true
+    simp only [JVal.size, render, List.length_cons, List.length_append, List.length_nil]; omega
+  | .dict kvs, hv => by
+    have hl : keysSorted kvs = true ∧ wfKvs kvs = true := by simpa [JVal.wf] using hv
+    have := sizeKvs_le_render sd fmt17 g H kvs hl.2 true
+    simp only [JVal.size, render, List.length_cons, List.length_append, List.length_nil]; omega
+theorem sizeList_le_render (sd : Bytes → Option UInt64) (fmt17 : UInt64 → Bytes) (g : UInt64 → UInt64)
+    (H : FloatHyp sd fmt17 g) : ∀ l : List JVal, wfList l = true → ∀ b : Bool,
+    sizeList l ≤ (renderElems fmt17 b l).length
+  | [], _, _ => by simp [sizeList]
+  | v :: vs, hl, b => by
+    have hw : v.wf = true ∧ wfList vs = true := by simpa [wfList] using hl
+    have h1 := size_le_render sd fmt17 g H v hw.1
+    have h2 := sizeList_le_render sd fmt17 g H vs hw.2 false
+    simp only [sizeList, renderElems, List.length_append]; omega
+theorem sizeKvs_le_render (sd : Bytes → Option UInt64) (fmt17 : UInt64 → Bytes) (g : UInt64 → UInt64)
+    (H : FloatHyp sd fmt17 g) : ∀ l : List (Bytes × JVal), wfKvs l = true → ∀ b : Bool,
+    sizeKvs l ≤ (renderMembers fmt17 b l).length
+  | [], _, _ => by simp [sizeKvs]
+  | (k, v) :: vs, hl, b => by
+    have hw : (validString k = true ∧ v.wf = true) ∧ wfKvs vs = true := by simpa [wfKvs] using hl
+    have h1 := size_le_render sd fmt17 g H v hw.1.2
+    have h2 := sizeKvs_le_render sd fmt17 g H vs hw.2 false
+    simp only [sizeKvs, renderMembers, List.length_append, List.length_cons]; omega
+end
+
+/-- the reference parser reads the rendered document back -/
+theorem parse_render (sd : Bytes → Option UInt64) (fmt17 : UInt64 → Bytes) (g : UInt64 → UInt64)
+    (H : FloatHyp sd fmt17 g) (v : JVal) (hv : v.wf = true) :
+    Rfc.parse sd (render fmt17 v) = some (v.mapF g) := by
+  obtain ⟨c, r, e, hc⟩ := render_head sd fmt17 g H v hv
+  have hfuel : need v ≤ 2 * (render fmt17 v).length + 2 := by
+    have := need_le_size v
+    have := size_le_render sd fmt17 g H v hv
+    omega
+  have := value_render sd fmt17 g H v hv _ [] hfuel trivial
+  simp only [List.append_nil] at this
+  unfold Rfc.parse
+  rw [e, skipWs_good c r hc.1, ← e, this]
+  simp [skipWs]
+
 end Usual.C03
